@@ -32,7 +32,7 @@ RULE = ("seeded schedules; distinct = canonical schedule JSON; non-trivial = som
 REQUIRED_BUCKETS = ["arrival-while-in-flight", "coalesced(overwritten-pending)", "arrival-at-completion-instant",
                     "in-flight-raised", "multi-group", "duration-0", "pending-started-at-exit-instant",
                     "independent-group-started-while-other-busy", "equal-requests-repeated",
-                    "overlapping-groups"]
+                    "overlapping-groups", "through-the-power-wrapper", "requests-issued-in-one-loop-iteration"]
 REQUIRED_COUNTERS = ["requests_sent", "distributions_entered", "schedules_run"]
 ASSUMPTIONS = ["probe ComponentManager; virtual time"]
 
@@ -62,7 +62,7 @@ def gen(rng: Any, tier: str, i: int) -> Any:
         for r in reqs:
             if rng.random() < 0.6:
                 r.append(rng.choice([0, 0, 1]))
-    return {"n_groups": ng, "requests": reqs}
+    return {"n_groups": ng, "requests": reqs, "via_wrapper": rng.random() < 0.3, "bursts": rng.random() < 0.5}
 
 
 async def _drive(case: dict[str, Any], log: list[Any]) -> None:
@@ -110,12 +110,29 @@ async def _drive(case: dict[str, Any], log: list[Any]) -> None:
     saved = pd.BatteryManager
     pd.BatteryManager = Probe  # type: ignore[misc,assignment]
     try:
-        reqc, resc, stc = Broadcast(name="req"), Broadcast(name="res"), Broadcast(name="st")
-        actor = pd.PowerDistributingActor(reqc.new_receiver(limit=1000), resc.new_sender(), stc.new_sender(),
-                                          api_power_request_timeout=timedelta(seconds=5),
-                                          component_category=ComponentCategory.BATTERY)
-        actor.start()
-        tx = reqc.new_sender()
+        wrapper = None
+        if case.get("via_wrapper"):
+            # the actor as the SDK itself wires it (microgrid/_power_wrapper.py): requests reach it through the
+            # wrapper's own requests channel and receiver
+            from frequenz.sdk._internal._channels import ChannelRegistry
+            from frequenz.sdk.microgrid._power_wrapper import PowerWrapper
+
+            from .. import fakes
+
+            comps, conns = fakes.battery_topology([([21, 29, 23], [101])])  # (some batteries must exist for the wrapper to start the actor)
+            fakes.install_connection_manager(comps, conns)
+            wrapper = PowerWrapper(ChannelRegistry(name="vf"), api_power_request_timeout=timedelta(seconds=5),
+                                   component_category=ComponentCategory.BATTERY)
+            wrapper._start_power_distributing_actor()  # noqa: SLF001
+            actor = wrapper._power_distributing_actor  # noqa: SLF001
+            tx = wrapper._power_distribution_requests_channel.new_sender()  # noqa: SLF001
+        else:
+            reqc, resc, stc = Broadcast(name="req"), Broadcast(name="res"), Broadcast(name="st")
+            actor = pd.PowerDistributingActor(reqc.new_receiver(limit=1000), resc.new_sender(), stc.new_sender(),
+                                              api_power_request_timeout=timedelta(seconds=5),
+                                              component_category=ComponentCategory.BATTERY)
+            actor.start()
+            tx = reqc.new_sender()
         await asyncio.sleep(0)
         t0 = loop.time()
         for i, (at, g, _d, _f, *shared) in enumerate(case["requests"]):
@@ -129,6 +146,9 @@ async def _drive(case: dict[str, Any], log: list[Any]) -> None:
             ident[id(req)] = float(i + 1)
             objs[float(i + 1)] = req  # (kept alive: object identity is the request id)
             await tx.send(req)
+            nxt_at = case["requests"][i + 1][0] if i + 1 < len(case["requests"]) else None
+            if case.get("bursts") and nxt_at == at:
+                continue  # requests issued in one go (same event-loop iteration), e.g. by one actor for several pools
             for _ in range(6):
                 await asyncio.sleep(0)
         await asyncio.sleep(300)
@@ -149,6 +169,11 @@ def check(case: dict[str, Any], rec: Any) -> None:
         rec.bucket("multi-group")
     if case["n_groups"] > 3:
         rec.bucket("overlapping-groups")
+    if case.get("via_wrapper"):
+        rec.bucket("through-the-power-wrapper")
+    ats = [r[0] for r in case["requests"]]
+    if case.get("bursts") and len(ats) != len(set(ats)):
+        rec.bucket("requests-issued-in-one-loop-iteration")
     if any(r[2] == 0 for r in case["requests"]):
         rec.bucket("duration-0")
     if any(len(r) > 4 for r in case["requests"]):
